@@ -470,7 +470,7 @@ def ts_class(sec):
     return ''
 
 
-def attribute_ts(name, o1, kind, fields):
+def attribute_ts(name, o1, kind, fields, o2=None):
     """(subject name, detail) to report for a value-drift / cannot-pack that is explained by a Timestamp."""
     tss = timestamps(o1)
     if not tss:
@@ -478,13 +478,23 @@ def attribute_ts(name, o1, kind, fields):
     if kind == 'value-drift':
         if not fields or not set(fields) <= set(k for k, _ in tss):
             return None
-        cls = sorted(set(ts_class(t.seconds) for k, t in tss if k in fields or k == ''))
-        return 'Timestamp', 'seconds' + (':' + '+'.join(c for c in cls if c) if any(cls) else '')
+        t2 = timestamps(o2) if o2 is not None else []
+        for i, (k, t) in enumerate(tss):
+            if k in fields or k == '':
+                if i < len(t2) and canon_f(t2[i][1].seconds) == canon_f(t.seconds):
+                    continue
+                c = ts_class(t.seconds)
+                return 'Timestamp', 'seconds' + (':' + c if c else '')
+        return None
     if kind == 'cannot-pack':
         bad = [t for _, t in tss if t.seconds == t.seconds and t.seconds >= 4294967295.5]
         if bad:
             return 'Timestamp', 'seconds>=2^32-1'
     return None
+
+
+def canon_f(x):
+    return 'nan' if x != x else struct.pack('<d', x)
 
 
 # ---------------------------------------------------------------------------------------------------------
@@ -595,7 +605,7 @@ def roundtrip(subj, b0, offsets, rng):
         c2 = cval(o2)
         if c2 != c1:
             df = diff_fields(c1, c2)
-            at = attribute_ts(name, o1, 'value-drift', df)
+            at = attribute_ts(name, o1, 'value-drift', df, o2)
             if at:
                 viols.append(('value-drift', at[1], 'Timestamp in field(s) %s of %s differs after unpack(pack(o)): %r -> %r' % (
                     df, name, [t.seconds for k, t in timestamps(o1) if k in df or k == ''],
